@@ -192,6 +192,38 @@ func cmdCheck(args []string) {
 	}
 	wg.Wait()
 
+	// Second round for obligations no solver decided (unknown / timeout, never
+	// for a `sat` answer): the same query, three times the per-obligation limit,
+	// at most three at a time so that the solvers are not competing with a full
+	// first round for the cores. A loaded machine then costs time, not a false
+	// alarm; an obligation that is still undecided is reported as before.
+	// VERIF_RETRY=0 turns the round off (the must-fail corpus runs, where an
+	// undischarged obligation is the expected outcome).
+	retried := 0
+	if os.Getenv("VERIF_RETRY") != "0" {
+		sem2 := make(chan struct{}, 3)
+		for _, oc := range all {
+			if oc.O.Cover || oc.OK || oc.FR.Unbound != "" || (oc.R.Status != "unknown" && oc.R.Status != "timeout") {
+				continue
+			}
+			retried++
+			wg.Add(1)
+			go func(oc *oblOutcome) {
+				defer wg.Done()
+				sem2 <- struct{}{}
+				defer func() { <-sem2 }()
+				q := oc.FR.Builder.script(oc.O.Pos) + "(assert (not " + oc.O.Goal + "))\n"
+				r := solve(*prop+"_"+oc.O.Name, q, oc.O.Model, 3*timeout, false, false)
+				r.Time += oc.R.Time
+				if r.Status == "unsat" || r.Status == "sat" {
+					oc.R = r
+					oc.OK = r.Status == "unsat"
+				}
+			}(oc)
+		}
+		wg.Wait()
+	}
+
 	// report
 	known := loadKnownFindings()
 	violations := 0
@@ -333,13 +365,14 @@ func cmdCheck(args []string) {
 		"coverage": map[string]any{
 			"obligations":  proofObls,
 			"discharged":   discharged,
-			"checker_cmd":  fmt.Sprintf("bin/vc check -property %s -tier %s (z3 5.1.0 / z3 4.8.12 / cvc5 1.0.3 race, %ds per obligation)", *prop, *tier, timeout),
+			"checker_cmd":  fmt.Sprintf("bin/vc check -property %s -tier %s (z3 5.1.0 / z3 4.8.12 / cvc5 1.0.3 race, %ds per obligation; undecided obligations get one second round at %ds)", *prop, *tier, timeout, 3*timeout),
 			"trusted_base": []string{"go1.26.8 go/types + x/tools v0.50.0 go/ssa", "vcgen SSA->SMT encoder", "z3 5.1.0", "z3 4.8.12", "cvc5 1.0.3", "extern contracts listed under assumptions"},
 			"functions_under_contract": funcsUnder,
 			"contract_clauses_bound":   clauses,
 			"per_function":             perFunc,
 			"by_solver":                bySolver,
 			"solver_time_s":            round3(solverTime),
+			"second_round_obligations": retried,
 			"vacuity_covers":           covers,
 			"vacuity_covers_inconclusive": coversInconclusive,
 			"samples":                  samples,
